@@ -573,7 +573,8 @@ struct decode_traits<std::array<T,N>>
             return result_type{jsoncons::unexpect, conv_errc::not_vector, cursor.line(), cursor.column()}; 
         }
         cursor.next(ec);
-        for (std::size_t i = 0; i < N && cursor.current().event_type() != staj_events::end_array && !ec; ++i)
+        std::size_t i = 0;
+        for (; i < N && cursor.current().event_type() != staj_events::end_array && !ec; ++i)
         {
             auto r = decode_traits<element_type>::decode(aset, cursor);
             if (!r)
@@ -586,6 +587,10 @@ struct decode_traits<std::array<T,N>>
             {
                 return result_type{jsoncons::unexpect, conv_errc::not_vector, cursor.line(), cursor.column()}; 
             }
+        }
+        if (i != N || cursor.current().event_type() != staj_events::end_array) // exactly N elements, as json_traits requires
+        {
+            return result_type{jsoncons::unexpect, conv_errc::not_vector, cursor.line(), cursor.column()}; 
         }
         return v;
     }
